@@ -91,6 +91,7 @@ def standard_lattice(seed, quick):
         {"model": "G2ramp"},
         {"model": "G3"},
         {"model": "G2hole"},
+        {"model": "G2cut"},
         {"kwargs": {"latent_prior": "gaussian", "constant_volume_mode": False}},
         {"kwargs": {"latent_prior": "uniform_nball"}},
         {"kwargs": {"latent_prior": "flow", "constant_volume_mode": False}},
@@ -452,6 +453,8 @@ def ins_lattice(seed, quick, resume_subsets=True):
         assigns.append({"weighted_kl": True})
         assigns.append({"model": "G3"})
         assigns.append({"model": "G2hole"})
+        assigns.append({"model": "G2cut"})
+        assigns.append({"model": "G2cut", "draw_constant": False, "reparameterisation": None})
         assigns.append({"model": "G2hole", "draw_iid_live": False, "strict_threshold": True})
         assigns.append({"min_remove": 5})
         assigns.append({"max_samples": 120})
